@@ -474,9 +474,17 @@ def c08_r4_sem(F, R):
             # `checked_div(y).unwrap_or(f)`: None covers y == 0 and, for the signed view, MIN / -1 as well
             ck = main[0]
             main = [(ck[0][len("checked_"):], ck[1], ck[2])]
-            zero = [ck[3]] if ck[3] else []
-            if ck[1] == "signed":
-                overflow_fallback = ck[3]
+            explicit_zero = list(zero)
+            if explicit_zero:
+                # the zero divisor has its own arm; `None` is then left for MIN / -1 alone
+                if ck[1] == "signed":
+                    want_fb = {"checked_div": ("var", "x"), "checked_rem": ("const", 0)}.get(ck[0])
+                    if ck[3] != want_fb:
+                        overflow_fallback = ck[3]
+            else:
+                zero = [ck[3]] if ck[3] else []
+                if ck[1] == "signed":
+                    overflow_fallback = ck[3]
         if len(main) != 1:
             R.bad(f"{name}", f"UNEXTRACTABLE: {name} arm has {len(main)} computed results ({sems})", f["sp"])
             continue
